@@ -497,4 +497,3 @@ func send(w *opdrv.World, router int, rq *request) *opdrv.Resp {
 	}
 	return w.Do(router, r)
 }
-
